@@ -424,8 +424,7 @@ func C10(c *Ctx) {
 				continue
 			}
 			args := call.Common().Args
-			if mc, ok := args[len(args)-1].(*ssa.MakeClosure); ok {
-				cb := mc.Fn.(*ssa.Function)
+			if cb := core.FuncValueTarget(args[len(args)-1]); cb != nil {
 				rangeCallbacks = append(rangeCallbacks, cb)
 				top := fn
 				for top.Parent() != nil {
@@ -489,11 +488,22 @@ func C10(c *Ctx) {
 			}
 			return false
 		}
-		effs := sites(cb, isEff)
+		effs := sites(cb, c.throughHelpers(isEff)) // the write may sit in a put-or-delete helper of the callback
 		if len(effs) == 0 {
 			continue
 		}
-		nPred += len(effs)
+		for _, e := range effs {
+			// a helper call stands for the selection sites it contains (putOrDelete: one Put and one Delete)
+			w := 1
+			if call, isCall := e.(ssa.CallInstruction); isCall && !isEff(e) {
+				if g := core.StaticCallee(call); g != nil {
+					if inner := len(sites(g, isEff)); inner > 1 {
+						w = inner
+					}
+				}
+			}
+			nPred += w
+		}
 		key := shortFnName(spec) + " callback: a key is selected for journal / state hash / commit whenever its value differs from the origin value"
 		// the two compared values: the arguments of the comparison (bytes.Equal or a module predicate over two byte
 		// slices) that feeds a branch of the callback; the origin side is the one read from originState
@@ -640,6 +650,14 @@ func sameSliceVar(v, rng ssa.Value) bool {
 	if a, ok := v.(*ssa.UnOp); ok {
 		if b, ok := rng.(*ssa.UnOp); ok && a.X == b.X {
 			return true
+		}
+		// two loads of the same field of the same object (x.keys sorted, x.keys ranged)
+		if b, ok := rng.(*ssa.UnOp); ok {
+			fa, okA := a.X.(*ssa.FieldAddr)
+			fb, okB := b.X.(*ssa.FieldAddr)
+			if okA && okB && fa.Field == fb.Field && core.Strip(fa.X) == core.Strip(fb.X) {
+				return true
+			}
 		}
 	}
 	// the sorted value and the ranged value are often the same phi or one append chain
